@@ -78,4 +78,109 @@ func c05(r *core.Run) {
 		}
 	}
 	r.Floor("R3.deref", 2)
+	c05Handouts(r)
+
+	// R5 optionals copy their payload: in SomeValue.Transfer, when the value is not resource-kinded, every return has passed the
+	// transfer (copy) of the inner value — path-sensitively in the result of IsResourceKinded
+	if fn := mustFn(r, "R5.some", "interpreter", "SomeValue", "Transfer"); fn != nil {
+		var as []core.Assumption
+		for _, c := range core.Calls(fn, false) {
+			if o := core.Callee(c); o != nil && o.Name() == "IsResourceKinded" {
+				if v, ok := c.(ssa.Value); ok {
+					as = append(as, core.Assumption{Var: core.BoolVar{Call: v}, Val: false})
+				}
+			}
+		}
+		isInnerTransfer := func(in ssa.Instruction) bool {
+			c, ok := in.(ssa.CallInstruction)
+			if !ok {
+				return false
+			}
+			return c.Common().IsInvoke() && c.Common().Method.Name() == "Transfer"
+		}
+		isRet := func(in ssa.Instruction) bool { _, ok := in.(*ssa.Return); return ok }
+		if len(as) == 0 {
+			r.Undecided("R5.some", core.SSAKey(fn), "no IsResourceKinded test")
+		} else {
+			hit := core.ReachUnder(fn, as, nil, isInnerTransfer, isRet)
+			r.Check(hit == nil, "R5.some", core.SSAKey(fn)+": non-resource payload is transferred", fn.Pos(), "with IsResourceKinded() == false every return passes the inner value's Transfer",
+				"an optional wrapping a non-resource value can be transferred without copying its payload: `let b = a` with a: [[Int]]? makes b and a share the inner array")
+		}
+	}
+	r.Floor("R5.some", 1)
+}
+
+// c05Handouts: R4 — elements read from a container's storage are copied before they are handed out: a function (literal) of
+// the interpreter that returns a value obtained through MustConvertStoredValue returns the result of its Transfer, unless the
+// skip is decided by canCopyNonRefSimpleForType of the element's own type field (keys by KeyType, values by ValueType).
+// Returns that hand out the stored object itself on the reviewed tree (reference-like accessors) are a recorded baseline.
+func c05Handouts(r *core.Run) {
+	const rule = "R4.handout"
+	w := r.W
+	got := map[string]int{}
+	var all []*ssa.Function
+	var collect func(f *ssa.Function)
+	collect = func(f *ssa.Function) {
+		all = append(all, f)
+		for _, a := range f.AnonFuncs {
+			collect(a)
+		}
+	}
+	for _, fn := range w.SrcFuncsIn("interpreter") {
+		if fn.Parent() == nil {
+			collect(fn)
+		}
+	}
+	n := 0
+	for _, fn := range all {
+		top := fn
+		for top.Parent() != nil {
+			top = top.Parent()
+		}
+		for _, ret := range core.Returns(fn) {
+			for _, res := range ret.Results {
+				lv := core.OriginLeavesVia(res)
+				if !strings.Contains(lv, "via:MustConvertStoredValue") {
+					continue
+				}
+				n++
+				if strings.Contains(lv, "via:Transfer") || strings.Contains(lv, "via:TransferAndConvert") || strings.Contains(lv, "via:Clone") {
+					continue
+				}
+				// a skip decided by the element's own type
+				allowed := false
+				for _, a := range core.ControllingConds(ret) {
+					d := core.ValueDesc(a.Var.Call)
+					if !strings.Contains(d, "via:canCopyNonRefSimpleForType") {
+						continue
+					}
+					switch {
+					case strings.Contains(lv, "via:NextKey") && strings.Contains(d, ".KeyType") && !strings.Contains(d, ".ValueType"),
+						strings.Contains(lv, "via:NextValue") && strings.Contains(d, ".ValueType") && !strings.Contains(d, ".KeyType"):
+						allowed = true
+					}
+				}
+				if !allowed {
+					got[core.SSAKey(top)]++
+				}
+			}
+		}
+	}
+	if genMode() {
+		genJSON(r, "c05_raw_handouts", got)
+		return
+	}
+	var base map[string]int
+	if !r.Table("c05_raw_handouts", &base) {
+		return
+	}
+	for _, k := range sortedKeys(got) {
+		if got[k] <= base[k] {
+			r.OK(rule, k, 0, "hands out the stored object on the reviewed tree as well (recorded baseline)")
+		} else {
+			r.Bad(rule, k, 0, "a value read from a container's storage is returned without being transferred (copied), and the skip is not decided by canCopyNonRefSimpleForType of the element's own type: the result aliases the container's element")
+		}
+	}
+	r.OK(rule, "interpreter scan", 0, itoa(n)+" returns of stored values examined")
+	r.Floor(rule, 1)
 }
